@@ -147,9 +147,12 @@ class WPath:
     def gshow(self):
         return " ".join(a.gshow() for a in self.atoms) or "ε"
 
-    def cond_show(self):
+    def cond_show(self, golden=False):
         out = []
         for k, v in self.statics.items():
+            if golden and isinstance(k, tuple) and k and k[0] == "assoc":
+                # run-time refusals (IS_ZERO_COPY) do not describe the bytes of the format
+                continue
             out.append("%s=%s" % (vs(k) if not (isinstance(k, tuple) and k and k[0] == "copy") else "Copy(%s)" % ty_str(k[1]), v))
         for s in self.selectors:
             if s[0] == "variant":
